@@ -147,3 +147,28 @@ pub mod wiring {
     #[cfg(feature = "no_simd")]
     w! { c06_f8_wiring_gen, 0; }
 }
+
+// ---- initial values (JH specification section 5.2): H(0) = F8(H(-1), M(0)) with H(-1) = digest size in
+//      bits as a 16-bit big-endian integer followed by zeros, M(0) = 0.  Concrete evaluation of the real
+//      f8 (no search): pins the four JHxxx_H0 constants to the compression function.
+pub fn iv_contract() {
+    use crate::jh_mode::JhTy;
+    use jh_x86_64::{Jh224, Jh256, Jh384, Jh512};
+    set_cpu(4);
+    let zero = [0u8; 64];
+    let f = |bits: u16| {
+        let mut h = [0u8; 128];
+        h[0] = (bits >> 8) as u8;
+        h[1] = bits as u8;
+        let mut c = Compressor::new(h);
+        c.input(GenericArray::from_slice(&zero));
+        c.finalize()
+    };
+    let mut ok = true;
+    let (a, b, c, d) = (Jh224::default().cv(), Jh256::default().cv(), Jh384::default().cv(), Jh512::default().cv());
+    let (ea, eb, ec, ed) = (f(224), f(256), f(384), f(512));
+    let mut i = 0;
+    while i < 128 { ok &= a[i] == ea[i] && b[i] == eb[i] && c[i] == ec[i] && d[i] == ed[i]; i += 1; }
+    obl!(ok, "initial_values_are_f8_of_digest_size_block");
+}
+harness_x!(c06_iv_contract, [], iv_contract());
